@@ -30,7 +30,7 @@ ASSUMPTIONS = ["sequences are sampled by seed; injection points are enumerated p
                "for GraphStream.graph() a failure inside a graph may keep or drop the triples of that graph that were "
                "accepted before the failing one"]
 EXHAUSTIVE_NOTE = "per sequence: every position x slot x applicable cause"
-PROBES = ["generator_entry_faults", "generator_entry_raised", "cause_none_term", "reenroll_after_reject", "cause_bad_namespace", "cause_unsupported", "cause_typed_literal", "cause_short_tuple", "slot_nested", "slot_g",
+PROBES = ["generator_entry_faults", "generator_entry_raised", "cause_none_term", "reenroll_after_reject", "cause_bad_namespace", "cause_unsupported", "cause_typed_literal", "cause_short_tuple", "cause_table_overflow", "table_overflow_rejected", "slot_nested", "slot_g",
           "stream_refused_later_use", "no_trace", "physical_GRAPHS", "integration_rdflib"]
 SHRINK_LISTS = ["ops"]
 
@@ -89,6 +89,12 @@ def injections(cfg, stmts):
             if cfg["max_datatypes"] == 0:
                 out.append((pos, "nested", "typed_literal"))
         out.append((pos, "-", "short_tuple"))
+        # a statement that one of the tables cannot hold at once (C18's refusal) is a rejection like any other -
+        # and the one that leaves most behind: entries assigned for its first terms, rows never sent
+        if generic and cfg["rdf_star"] and max(cfg["max_names"], cfg["max_prefixes"]) < 150:
+            out.append((pos, "nested", "table_overflow"))
+        if generic and cfg["generalized"] and 0 < cfg["max_datatypes"] < arity:
+            out.append((pos, "dt", "table_overflow"))
         if cfg.get("ns"):
             out.append((pos, "-", "bad_namespace"))
     return out
@@ -100,6 +106,8 @@ def bad_statement(cfg, st, slot, cause, lex):
     objs = [conv(t) for t in st]
     if cause == "short_tuple":
         return objs[:2]
+    if cause == "table_overflow":
+        return overflowing_statement(cfg, objs, slot, conv)
     if cause == "unsupported":
         bad = Alien()
     elif cause == "none_term":
@@ -113,6 +121,22 @@ def bad_statement(cfg, st, slot, cause, lex):
     else:
         idx = "spog".index(slot)
     objs[idx] = bad
+    return objs
+
+
+def overflowing_statement(cfg, objs, slot, conv):
+    """The statement with its object replaced so that it needs more entries of one table than the table has."""
+    if slot == "dt":
+        # every slot a literal of its own datatype: arity distinct datatypes > max_datatypes
+        objs = [conv(("lit", f"v{i}", None, f"http://dt.example/overflow{i}")) for i in range(len(objs))]
+        return objs
+    from pyjelly.integrations.generic import generic_sink as gs
+    k = max(cfg["max_names"], cfg["max_prefixes"]) + 2
+    inner = conv(("iri", "http://ovf0.example/n0"))
+    for i in range(1, k, 2):
+        inner = gs.Triple(conv(("iri", f"http://ovf{i}.example/n{i}")), conv(("iri", f"http://ovf{i + 1}.example/n{i + 1}")), inner)
+    objs = list(objs)
+    objs[2] = inner
     return objs
 
 
@@ -211,6 +235,8 @@ def execute(plan, sim):
             sim.count("reenroll_after_reject")
         sim.event("inject", pos, slot, cause, reenroll, info["rejected"], info["exc"], info["later_ok"],
                   info["later_raised"], len(data))
+        if cause == "table_overflow" and info["rejected"]:
+            sim.count("table_overflow_rejected")
         if not info["rejected"] and cause != "none_term":
             continue            # the statement was not rejected: nothing to judge here
         if not info["rejected"]:
